@@ -367,7 +367,7 @@ def shrink_schedule(case):
                 yield c
 
 
-TIERS = {"quick": {"runs": 340, "wall_cap": 480, "opts": {"gen": {"nvariants": 2}}},
+TIERS = {"quick": {"runs": 480, "wall_cap": 480, "opts": {"gen": {"nvariants": 2}}},
          "thorough": {"runs": 8000, "wall_cap": 3300,
                       "opts": {"gen": {"nvariants": 5, "hashseeds": HASHSEEDS_THOROUGH}}}}
 RULE = ("one run = one generated multi-directory world (2..5 platforms, engineered byte-identical copies forming duplicate "
